@@ -489,6 +489,8 @@ class HomogDomain(Domain):
                 if last in ("mean", "sum", "max", "min") and not recv.image:
                     # reducing a vector of scalars (e.g. per-shell values): keep structure with an outer marker
                     return HP({m + (((("outer", last), Fraction(0)),) if False else ()): c for m, c in recv.t.items()}, False)
+                if last in ("std", "var") and recv.image:
+                    return self._std(recv, last)
                 if last in ("astype", "copy", "ravel", "squeeze", "conj"):
                     return recv if last != "conj" else self.lin_apply(recv, "conj")
                 if last == "max":
@@ -501,6 +503,8 @@ class HomogDomain(Domain):
                 return a0 if op is None else self.lin_apply(a0, op)
             if last in ("sum", "mean") and a0.image:
                 return self.reduce(last, a0)
+            if last in ("std", "var") and a0.image:
+                return self._std(a0, last)
             if last == "sum_labels" and a0.image:
                 lab = kwargs.get("labels", args[1] if len(args) > 1 else None)
                 idx = kwargs.get("index", args[2] if len(args) > 2 else None)
@@ -537,6 +541,20 @@ class HomogDomain(Domain):
                 return a0
             return HP.atom(("const", last))
         return TOP
+
+    def _std(self, x, kind):
+        """var(x) = mean(x*x) - mean(x)**2 (a centred second moment: a different bilinear form from the raw sum / mean); std = sqrt(var)."""
+        try:
+            m1 = self.reduce("mean", x)
+            var = self.reduce("mean", x * x) + (-(m1 * m1))
+        except Exception:
+            return TOP
+        if kind == "var":
+            return var
+        d = poly_degree(var, self.inputs)
+        if d is None:
+            return TOP
+        return HP.atom(("opaque", f"sqrt({var!r})"[:80], tuple(z / 2 for z in d)), False)
 
     def call_repo(self, interp, funcs, bound, args, kwargs, node):
         names = {f.name for f in funcs}
